@@ -4,6 +4,7 @@ CONSTANTS NS = 1
           CapMod = 2
           MaxSends = 2
           MaxSubs = 1
+          NCallers = 1
           Senders <- MCSenders
           Chans <- MCChans
           Cap <- MCCap
